@@ -460,6 +460,10 @@ def norm(v, immutable=False):
             d[k] = x
         return d
     if isinstance(v, CBORTag):
+        if not _symbolic(v.tag) and v.tag in (28, 256):
+            return norm(v.value, immutable)
+        if not _symbolic(v.tag) and v.tag == 55799:
+            return norm(v.value, True)
         if not _symbolic(v.tag) and v.tag in SEMANTIC_TAGS:
             return Semantic(v.tag, norm(v.value, True))
         return CBORTag(v.tag, norm(v.value, True))
@@ -541,7 +545,8 @@ def _dec(b, pos, immutable, depth):
                 raise CBORDecodeEOF("premature end of stream")
             return _struct.unpack(">d", bytes(b[pos : pos + 8]))[0], pos + 8
         if ai == 31:
-            raise CBORDecodeError("unexpected break")
+            # cbor2 6 hands out its internal break marker object for a stray 0xFF
+            return SimpleValue(-1), pos
         raise CBORDecodeError("undefined reserved major type 7 subtype")
     arg, pos = _arg(b, pos, ai)
     if major == 0:
@@ -643,6 +648,9 @@ def _dec(b, pos, immutable, depth):
     # major == 6
     if arg is None:
         raise CBORDecodeError("unknown unsigned integer subtype 0x1f")
+    if not _symbolic(arg) and arg in (28, 256):
+        # shareable / stringref-namespace: cbor2 returns the enclosed item itself, decoded in the current context
+        return _dec(b, pos, immutable, depth + 1)
     inner, pos = _dec(b, pos, True, depth + 1)
     if not _symbolic(arg) and arg in SEMANTIC_TAGS:
         return _semantic(arg, inner), pos
